@@ -144,6 +144,9 @@ type heapInfo struct {
 
 // Heap returns the current term of a heap array (the function-entry symbol if untouched).
 func (fx *FnCtx) Heap(st *State, name string, leaf Leaf) *Term {
+	if fx.pureEval {
+		fx.fail("an opaque spec function reads memory (%s); only pure arithmetic functions may be opaque", name)
+	}
 	if h, ok := st.Heaps[name]; ok {
 		return h
 	}
